@@ -342,11 +342,13 @@ Qed.
 (* op 1: n > 30                                                             *)
 (* ====================================================================== *)
 Definition c11_normal_case : Type :=
-  (Z * Z * Q * (xreal * xreal * xreal * xreal) * (Z * Z) * (xreal * xreal * xreal) * (xreal * xreal * xreal) * qobs)%type.
+  (Z * Z * Q * (xreal * xreal * xreal * xreal) * (Z * Z) * (xreal * xreal * xreal) * (xreal * xreal * xreal) *
+   list (xreal * xreal * xreal) * qobs)%type.
 Definition p_op1 : parser c11_normal_case :=
   do n <- pZ; do qb <- pZ; do c <- pQ; do mu <- pX; do sg <- pX; do l1 <- pX; do r1 <- pX; do l0 <- pZ; do r0 <- pZ;
-  do b1 <- pX; do b2 <- pX; do pl1 <- pX; do ch <- pX; do cl <- pX; do ch1 <- pX; do o <- p_qobs;
-  pend (n, qb, c, (mu, sg, l1, r1), (l0, r0), (b1, b2, pl1), (ch, cl, ch1), o).
+  do b1 <- pX; do b2 <- pX; do pl1 <- pX; do ch <- pX; do cl <- pX; do ch1 <- pX;
+  do ws <- plist (do b <- pX; do h <- pX; do l <- pX; pret (b, h, l)); do o <- p_qobs;
+  pend (n, qb, c, (mu, sg, l1, r1), (l0, r0), (b1, b2, pl1), (ch, cl, ch1), ws, o).
 
 Lemma p_op1_complete : forall rest v r, p_op1 rest = Some (v, r) -> r = [].
 Proof.
@@ -354,19 +356,43 @@ Proof.
   repeat (apply pbind_some in H as (? & ? & _ & H)). apply pend_some in H as (_ & _ & ->). reflexivity.
 Qed.
 
-(* The oracle values mu, sigma, l1 = InvCDF(alpha), r1, the CDF values ch = CDF(r0 - 1/2), cl = CDF(la - 1/2),
-   ch1 = CDF(r0 - 3/2), their differences b1, b2 and pl1 = CDF(l1) are what the harness read off the
-   implementation's own NormalDist (oracle instantiation: their accuracy is C05's subject).  Accepted means:
+(* the bands (la - k, r0 + k), k < K, the widening loop went through: observed mass b = CDF difference to
+   2 ulps, b < c, and the band does not cover [0, n+1] *)
+Definition chain_prop (n : Z) (c : Q) (la r0 : Z) (steps : list (Q * Q * Q)) : Prop :=
+  forall k b h l, nth_error steps k = Some (b, h, l) ->
+    Qabs (b - (h - l)) <= ulps 2 1 /\ b < c /\ (0 < la - Z.of_nat k \/ r0 + Z.of_nat k < n + 1)%Z.
+
+Lemma chain_ok_sound : forall n c la r0 steps chF clF k0, chain_ok n c la r0 k0 steps chF clF = true ->
+  forall k b h l, nth_error steps k = Some (b, h, l) ->
+    Qabs (b - (h - l)) <= ulps 2 1 /\ b < c /\ (0 < la - (k0 + Z.of_nat k) \/ r0 + (k0 + Z.of_nat k) < n + 1)%Z.
+Proof.
+  intros n c la r0. induction steps as [|[[b0 h0] l0] t IH]; intros chF clF k0 H k b h l Hk; [destruct k; discriminate|].
+  cbn [chain_ok] in H. apply andb_prop in H as [H Hrest]. apply andb_prop in H as [H _].
+  apply andb_prop in H as [H H3]. apply andb_prop in H as [H1 H2].
+  destruct k as [|k].
+  - cbn in Hk. injection Hk as -> -> ->. apply within_sound in H1. apply Qltb_true in H2.
+    split; [exact H1|]. split; [exact H2|]. rewrite Z.add_0_r.
+    apply orb_prop in H3 as [H3|H3]; apply Z.ltb_lt in H3; lia.
+  - cbn in Hk. specialize (IH chF clF (k0 + 1)%Z Hrest k b h l Hk).
+    replace (k0 + Z.of_nat (S k))%Z with (k0 + 1 + Z.of_nat k)%Z by lia. exact IH.
+Qed.
+
+(* The oracle values mu, sigma, l1 = InvCDF(alpha), r1, the CDF values and their differences are what the
+   harness read off the implementation's own NormalDist (oracle instantiation: their accuracy is C05's
+   subject; bin/plugins/C11.py certifies a sample against the true normal CDF in the kernel).  Accepted means:
    they are mutually consistent and describe Normal(n q, n q (1-q)); [l0 - 1/2, r0 - 1/2] is the outward
-   rounding of [l1, r1] to half-integers; l1 is the alpha-quantile to 1e-9 in probability; and the observed
-   result is the band logic on these values:  la = l0 (or r0 - 1 for an empty rounded band); the upper end is
-   one lower ("biased", Ambiguous) exactly when the shorter band is not empty, still has observed mass
-   b2 >= c and b2 < b1; Confidence is the observed mass of the band taken, 1 when it covers [0, n+1]; the
-   orders are the band clamped to [0, n+1]; and Confidence >= c. *)
-Definition normal_clauses (n : Z) (q c : Q) (mu sg l1 r1 : xreal) (l0 r0 : Z) (b1 b2 pl1 ch cl ch1 : xreal) (o : qobs) : Prop :=
-  exists mu' sg' l1' r1' b1' b2' ch' cl' ch1',
+   rounding of [l1, r1] to half-integers; l1 is the alpha-quantile to 1e-9 in probability; the rounded band
+   (la, r0) — la = l0, or r0 - 1 for an empty rounded band — was widened K times, every narrower band having
+   observed mass < c, and the band taken (lw, rw) = (la - K, r0 + K) has observed mass b1 >= c or covers
+   [0, n+1]; and the observed result is the band logic on these values: the upper end is one lower
+   ("biased", Ambiguous) exactly when the shorter band is not empty, still has observed mass b2 >= c and
+   b2 < b1; Confidence is the observed mass of the band taken, 1 when it covers [0, n+1]; the orders are the
+   band clamped to [0, n+1]; and Confidence >= c. *)
+Definition normal_clauses (n : Z) (q c : Q) (mu sg l1 r1 : xreal) (l0 r0 : Z) (b1 b2 pl1 ch cl ch1 : xreal)
+                          (ws : list (xreal * xreal * xreal)) (o : qobs) : Prop :=
+  exists mu' sg' l1' r1' b1' b2' ch' cl' ch1' steps,
     mu = XFin mu' /\ sg = XFin sg' /\ l1 = XFin l1' /\ r1 = XFin r1' /\ b1 = XFin b1' /\ b2 = XFin b2' /\
-    ch = XFin ch' /\ cl = XFin cl' /\ ch1 = XFin ch1' /\
+    ch = XFin ch' /\ cl = XFin cl' /\ ch1 = XFin ch1' /\ fin_steps ws = Some steps /\
     let nq := inject_Z n * q in
     let var := nq * (1 - q) in
     (0 <= sg' /\ Qabs (sg' * sg' - var) <= ulps 8 var) /\
@@ -379,39 +405,119 @@ Definition normal_clauses (n : Z) (q c : Q) (mu sg l1 r1 : xreal) (l0 r0 : Z) (b
     | _ => q == 0 \/ q == 1
     end /\
     let la := if (r0 <=? l0)%Z then (r0 - 1)%Z else l0 in
-    let biased := (la <? r0 - 1)%Z && Qle_bool c b2' && Qltb b2' b1' in
-    let r' := if biased then (r0 - 1)%Z else r0 in
-    let full := (la <=? 0)%Z && (n + 1 <=? r')%Z in
+    let K := Z.of_nat (length steps) in
+    let lw := (la - K)%Z in
+    let rw := (r0 + K)%Z in
+    chain_prop n c la r0 steps /\
+    (c <= b1' \/ (lw <= 0 /\ n + 1 <= rw)%Z) /\
+    let biased := (lw <? rw - 1)%Z && Qle_bool c b2' && Qltb b2' b1' in
+    let r' := if biased then (rw - 1)%Z else rw in
+    let full := (lw <=? 0)%Z && (n + 1 <=? r')%Z in
     exists cf, o_conf o = XFin cf /\
-      o_lo o = Z.max la 0 /\ o_hi o = Z.min r' (n + 1) /\ o_amb o = biased && negb full /\
+      o_lo o = Z.max lw 0 /\ o_hi o = Z.min r' (n + 1) /\ o_amb o = biased && negb full /\
       cf == (if full then 1 else if biased then b2' else b1') /\ c <= cf.
 
 Definition normal_ok (cs : c11_normal_case) : Prop :=
-  let '(n, qb, c, (mu, sg, l1, r1), (l0, r0), (b1, b2, pl1), (ch, cl, ch1), o) := cs in
+  let '(n, qb, c, (mu, sg, l1, r1), (l0, r0), (b1, b2, pl1), (ch, cl, ch1), ws, o) := cs in
   exists q, decode_bits qb = XFin q /\ (30 < n)%Z /\ 0 <= q <= 1 /\
     o_n o = n /\ o_qbits o = qb /\ (0 <= o_lo o)%Z /\ (o_lo o < o_hi o)%Z /\ (o_hi o <= n + 1)%Z /\
     (1 <= c -> o_lo o = 0%Z /\ o_hi o = (n + 1)%Z /\ o_amb o = false /\ exists v, o_conf o = XFin v /\ v == 1) /\
-    (c < 1 -> normal_clauses n q c mu sg l1 r1 l0 r0 b1 b2 pl1 ch cl ch1 o).
+    (c < 1 -> normal_clauses n q c mu sg l1 r1 l0 r0 b1 b2 pl1 ch cl ch1 ws o).
 
-(* the band logic on a band function known at the two bands it is asked for *)
-Lemma qci_normal_reads : forall (bandf : Z -> Z -> Q) n c l1 r1 B1 B2,
-  let l0 := (Qfloor (l1 - (1 # 2)) + 1)%Z in
-  let r0 := (Qceiling (r1 - (1 # 2)) + 1)%Z in
-  let la := if (r0 <=? l0)%Z then (r0 - 1)%Z else l0 in
-  bandf la r0 = B1 -> bandf la (r0 - 1)%Z = B2 ->
-  let biased := (la <? r0 - 1)%Z && Qle_bool c B2 && Qltb B2 B1 in
-  let r' := if biased then (r0 - 1)%Z else r0 in
-  let full := (la <=? 0)%Z && (n + 1 <=? r')%Z in
-  qci_normal bandf n c l1 r1 =
-  mkR (Z.max la 0) (Z.min r' (n + 1)) (if full then 1 else if biased then B2 else B1) (biased && negb full).
+Ltac reject H := apply accepted_verdict in H; unfold V_MALFORMED, V_MISMATCH in H; lia.
+
+Theorem check_C11_op1_sound : forall rest, accepted (check_C11 (11%Z :: 1%Z :: rest)) ->
+  exists cs, p_op1 rest = Some (cs, []) /\ normal_ok cs.
 Proof.
-  intros bandf n c l1 r1 B1 B2 l0 r0 la E1 E2 biased r' full.
-  unfold qci_normal. fold l0 r0. fold la. rewrite E1, E2. fold biased.
-  unfold full, r'. clearbody biased. destruct biased; cbv beta iota; cbn [negb andb].
-  - destruct ((la <=? 0)%Z && (n + 1 <=? r0 - 1)%Z) eqn:F; unfold clampR; cbn [negb andb]; f_equal;
-      try (destruct (la <? 0)%Z eqn:X; [apply Z.ltb_lt in X | apply Z.ltb_ge in X]; lia);
-      try (destruct (n + 1 <? r0 - 1)%Z eqn:X; [apply Z.ltb_lt in X | apply Z.ltb_ge in X]; lia).
-  - destruct ((la <=? 0)%Z && (n + 1 <=? r0)%Z) eqn:F; unfold clampR; cbn [negb andb]; f_equal;
-      try (destruct (la <? 0)%Z eqn:X; [apply Z.ltb_lt in X | apply Z.ltb_ge in X]; lia);
-      try (destruct (n + 1 <? r0)%Z eqn:X; [apply Z.ltb_lt in X | apply Z.ltb_ge in X]; lia).
+  intros rest H. cbn [check_C11] in H.
+  change (do n <- pZ; do qb <- pZ; do c <- pQ; do mu <- pX; do sg <- pX; do l1 <- pX; do r1 <- pX; do l0 <- pZ; do r0 <- pZ;
+          do b1 <- pX; do b2 <- pX; do pl1 <- pX; do ch <- pX; do cl <- pX; do ch1 <- pX;
+          do ws <- plist (do b <- pX; do h <- pX; do l <- pX; pret (b, h, l)); do o <- p_qobs;
+          pend (n, qb, c, (mu, sg, l1, r1), (l0, r0), (b1, b2, pl1), (ch, cl, ch1), ws, o)) with p_op1 in H.
+  destruct (p_op1 rest) as [[cs r]|] eqn:EP; [|reject H].
+  pose proof (p_op1_complete _ _ _ EP) as ->.
+  exists cs. split; [reflexivity|].
+  destruct cs as [[[[[[[[n qb] c] [[[mu sg] l1] r1]] [l0 r0]] [[b1 b2] pl1]] [[ch cl] ch1]] ws] o].
+  destruct (decode_bits qb) as [| |q] eqn:Eq; try reject H.
+  destruct ((n <=? qci_threshold)%Z || Qltb q 0 || Qltb 1 q) eqn:G; [reject H|].
+  apply Bool.orb_false_iff in G as [G G3]. apply Bool.orb_false_iff in G as [G1 G2].
+  apply Z.leb_gt in G1. unfold qci_threshold in G1. apply Qltb_false in G2. apply Qltb_false in G3.
+  destruct ((o_n o =? n)%Z && (o_qbits o =? qb)%Z) eqn:E1; cbn [negb] in H; [|reject H].
+  apply andb_prop in E1 as [E1 E1']. apply Z.eqb_eq in E1. apply Z.eqb_eq in E1'.
+  destruct (orders_ok n o) eqn:E2; cbn [negb] in H; [|reject H].
+  apply orders_ok_sound in E2 as (O1 & O2 & O3).
+  unfold normal_ok. exists q. split; [exact Eq|]. split; [lia|]. split; [split; assumption|].
+  split; [exact E1|]. split; [exact E1'|]. split; [exact O1|]. split; [exact O2|]. split; [exact O3|].
+  destruct (Qle_bool 1 c) eqn:E3.
+  { apply Qle_bool_iff in E3. split; [|intros; lra]. intros _.
+    destruct (is_full n o) eqn:E4; [apply is_full_sound; exact E4 | reject H]. }
+  apply Qle_bool_false in E3. split; [intros; lra|]. intros _.
+  destruct mu as [| |mu']; try reject H. destruct sg as [| |sg']; try reject H.
+  destruct l1 as [| |l1']; try reject H. destruct r1 as [| |r1']; try reject H.
+  destruct b1 as [| |b1']; try reject H. destruct b2 as [| |b2']; try reject H.
+  destruct ch as [| |ch']; try reject H. destruct cl as [| |cl']; try reject H.
+  destruct ch1 as [| |ch1']; try reject H.
+  destruct (fin_steps ws) as [steps|] eqn:Es; try reject H.
+  cbv zeta in H.
+  match type of H with accepted (if negb ?b then _ else _) => destruct b eqn:C1 end; cbn [negb] in H; [|reject H].
+  match type of H with accepted (if negb ?b then _ else _) => destruct b eqn:C2 end; cbn [negb] in H; [|reject H].
+  match type of H with accepted (if negb ?b then _ else _) => destruct b eqn:C3 end; cbn [negb] in H; [|reject H].
+  match type of H with accepted (if negb ?b then _ else _) => destruct b eqn:C4 end; cbn [negb] in H; [|reject H].
+  match type of H with accepted (if negb ?b then _ else _) => destruct b eqn:C5 end; cbn [negb] in H; [|reject H].
+  apply andb_prop in C5 as [C5 C5']. apply Z.eqb_eq in C5. apply Z.eqb_eq in C5'.
+  rewrite C5, C5' in H.
+  match type of H with accepted (if negb ?b then _ else _) => destruct b eqn:C6 end; cbn [negb] in H; [|reject H].
+  match type of H with accepted (if ?b then _ else _) => destruct b eqn:C7 end; [reject H|].
+  match type of H with accepted (if negb ?b then _ else _) => destruct b eqn:C8 end; cbn [negb] in H; [|reject H].
+  match type of H with accepted (if negb ?b then _ else _) => destruct b eqn:C9 end; cbn [negb] in H; [|reject H].
+  match type of H with accepted (if ?b then _ else _) => destruct b eqn:C10 end; [|reject H].
+  clear H C9.
+  apply close_sqrt_sound_Q in C1. apply within_sound in C2. apply within_sound in C3.
+  apply andb_prop in C4 as [C4 C4c]. apply andb_prop in C4 as [C4a C4b].
+  apply within_sound in C4a. apply within_sound in C4b. apply Qle_bool_iff in C4c.
+  unfold normal_clauses. exists mu', sg', l1', r1', b1', b2', ch', cl', ch1', steps.
+  repeat (split; [reflexivity|]). split; [exact Es|]. cbv zeta.
+  split; [exact C1|]. split; [exact C2|]. split; [exact C3|]. split; [exact C4a|]. split; [exact C4b|]. split; [exact C4c|].
+  split; [symmetry; exact C5|]. split; [symmetry; exact C5'|].
+  split.
+  { destruct pl1 as [| |p]; [| |apply within_sound in C8; exact C8];
+      (apply orb_prop in C8 as [C8|C8]; apply Qeq_bool_iff in C8; [left | right]; exact C8). }
+  split.
+  { intros k b h l Hk. pose proof (chain_ok_sound _ _ _ _ _ _ _ _ C6 k b h l Hk) as X.
+    rewrite !Z.add_0_l in X. exact X. }
+  split.
+  { apply andb_false_iff in C7 as [A|B].
+    - left. apply Qltb_false in A. exact A.
+    - right. apply orb_false_iff in B as [B1 B2]. apply Z.ltb_ge in B1. apply Z.ltb_ge in B2. lia. }
+  cbn [r_lo r_hi r_amb r_conf] in C10.
+  apply andb_prop in C10 as [C10 Cc]. apply andb_prop in C10 as [C10 Cx]. apply andb_prop in C10 as [C10 Ca].
+  apply andb_prop in C10 as [Cl Ch]. apply Z.eqb_eq in Cl. apply Z.eqb_eq in Ch. apply Bool.eqb_prop in Ca.
+  apply xeq_fin in Cx as (cf & Ecf & Hcf). apply Qle_bool_iff in Cc.
+  exists cf. split; [exact Ecf|]. split; [symmetry; exact Cl|]. split; [symmetry; exact Ch|].
+  split; [symmetry; exact Ca|]. split; [exact Hcf|]. rewrite Hcf. exact Cc.
+Qed.
+
+(* ====================================================================== *)
+(* the three operations together                                            *)
+(* ====================================================================== *)
+Theorem check_C11_ok_sound : forall line, accepted (check_C11 line) ->
+  exists rest,
+    (line = 11%Z :: 0%Z :: rest /\
+       exists n qb items q, p_op0 rest = Some ((n, qb, items), []) /\ decode_bits qb = XFin q /\
+         (1 <= n <= 30)%Z /\ 0 <= q <= 1 /\ Forall (small_item_ok n qb q (exact_regime n q)) items) \/
+    (line = 11%Z :: 1%Z :: rest /\ exists cs, p_op1 rest = Some (cs, []) /\ normal_ok cs) \/
+    (line = 11%Z :: 2%Z :: rest /\ exists c, p_op2 rest = Some (c, []) /\ sample_ok c).
+Proof.
+  intros line H.
+  destruct line as [|a line]; [reject H|].
+  destruct a as [|a|a]; try reject H.
+  do 4 (destruct a as [a|a|]; try reject H).
+  destruct line as [|b rest]; [reject H|].
+  destruct b as [|b|b]; try reject H.
+  - exists rest. left. split; [reflexivity|]. apply check_C11_op0_sound. exact H.
+  - destruct b as [b|b|].
+    + reject H.
+    + destruct b as [b|b|]; try reject H.
+      exists rest. right; right. split; [reflexivity|]. apply check_C11_op2_sound. exact H.
+    + exists rest. right; left. split; [reflexivity|]. apply check_C11_op1_sound. exact H.
 Qed.
